@@ -1,7 +1,7 @@
 import Mieru.Gen.Consts
 import Mieru.Gen.Arith
 import Mieru.Model.Padding
-import Mieru.Gen.Wire
+import Mieru.Gen.UdpWire
 import Mieru.Proofs.Chunk
 /-!
 # C14 — no datagram exceeds the configured MTU; no payload exceeds its length field
@@ -11,7 +11,7 @@ The theorems are stated about the definitions REGENERATED from the repository's 
 breaks these proofs at `lake build` time.
 
 `datagramLen`, the padding budgets, the piggyback decision and the fragment loop are hand-written and PROVED
-EQUAL to the definitions regenerated from `writeOneSegment` / `Write` / `writeChunk` (`Mieru.Gen.Wire`, second half
+EQUAL to the definitions regenerated from `writeOneSegment` / `Write` / `writeChunk` (`Mieru.Gen.UdpWire`, second half
 of this file). `datagramLen` is the buffer arithmetic of `PacketUnderlay.writeOneSegment`:
 `make([]byte, encryptedMetadataLen + len(padding1) + wirePayloadLen + len(padding2))` with
 `encryptedMetadataLen = MetadataLength + NonceSize + Overhead` and
@@ -180,7 +180,7 @@ theorem fragment_count_fits_u8 (mtu mode len f : Int) (hm : 1280 ≤ mtu ∧ mtu
   have : (len - 1) / f < 256 := Int.ediv_lt_of_lt_mul (by omega) (by omega)
   omega
 
-/-! ## The buffer arithmetic is the regenerated one (`Mieru.Gen.Wire`, tools/goextract/c14wire.go)
+/-! ## The buffer arithmetic is the regenerated one (`Mieru.Gen.UdpWire`, tools/goextract/c14wire.go)
 
 `datagramLen`, the padding budgets of `PadOK`, the piggyback decision and the fragment loop were written by
 hand; the theorems below prove each of them EQUAL to the definition regenerated from the current source of
@@ -189,27 +189,27 @@ regenerated side and breaks these proofs at build time. -/
 
 /-- data segment, low entropy off: `writeOneSegment` allocates exactly `datagramLen` bytes -/
 theorem datagramLen_is_regenerated_data (p1 n w p2 : Int) (hn : 0 < n) :
-    datagramLen p1 n p2 true = Gen.Wire.packetDataSegLen n w p1 p2 0 := by
-  simp [datagramLen, Gen.Wire.packetDataSegLen, hn]
+    datagramLen p1 n p2 true = Gen.UdpWire.packetDataSegLen n w p1 p2 0 := by
+  simp [datagramLen, Gen.UdpWire.packetDataSegLen, hn]
 
 /-- data segment, low entropy on: the wire payload is the encoded length `w` plus the tag -/
 theorem datagramLen_is_regenerated_lowentropy (p1 n w p2 : Int) (hn : 0 < n) :
-    datagramLen p1 w p2 true = Gen.Wire.packetDataSegLen n w p1 p2 1 := by
-  simp [datagramLen, Gen.Wire.packetDataSegLen, hn]
+    datagramLen p1 w p2 true = Gen.UdpWire.packetDataSegLen n w p1 p2 1 := by
+  simp [datagramLen, Gen.UdpWire.packetDataSegLen, hn]
 
 /-- pure ack: no payload, whatever the other arguments -/
 theorem datagramLen_is_regenerated_ack (p1 w p2 le : Int) :
-    datagramLen p1 0 p2 false = Gen.Wire.packetDataSegLen 0 w p1 p2 le := by
-  simp [datagramLen, Gen.Wire.packetDataSegLen]
+    datagramLen p1 0 p2 false = Gen.UdpWire.packetDataSegLen 0 w p1 p2 le := by
+  simp [datagramLen, Gen.UdpWire.packetDataSegLen]
 
 /-- session segment (open / close, request / response) with `n ≥ 0` payload bytes and end padding `p` -/
 theorem datagramLen_is_regenerated_session (n p : Int) (hn : 0 ≤ n) :
-    datagramLen 0 n p (decide (0 < n)) = Gen.Wire.packetSessionSegLen n p := by
+    datagramLen 0 n p (decide (0 < n)) = Gen.UdpWire.packetSessionSegLen n p := by
   by_cases h : 0 < n
-  · simp [datagramLen, Gen.Wire.packetSessionSegLen, h]
+  · simp [datagramLen, Gen.UdpWire.packetSessionSegLen, h]
   · have : n = 0 := by omega
     subst this
-    simp [datagramLen, Gen.Wire.packetSessionSegLen]
+    simp [datagramLen, Gen.UdpWire.packetSessionSegLen]
 
 /-- what a textual argument of a padding-budget call denotes -/
 def argLen (a : String) (wire p1 : Int) : Option Int :=
@@ -234,7 +234,7 @@ def budgetOfCall (args : List String) (mtu wire p1 : Int) (cfgMid cfgEnd : Optio
   | _ => none
 
 def regenBudgets (branch : String) (mtu wire p1 : Int) (cfgMid cfgEnd : Option Int) : List (Option Int) :=
-  (Gen.Wire.paddingBudgetCalls.filter (fun c => c.1 == branch)).map (fun c => budgetOfCall c.2 mtu wire p1 cfgMid cfgEnd)
+  (Gen.UdpWire.paddingBudgetCalls.filter (fun c => c.1 == branch)).map (fun c => budgetOfCall c.2 mtu wire p1 cfgMid cfgEnd)
 
 /-- The budgets `PadOK` bounds the two paddings of a data / ack segment with are exactly what the two
     regenerated calls in the data branch of `PacketUnderlay.writeOneSegment` compute: both from the wire
@@ -244,18 +244,18 @@ theorem data_budgets_regenerated (mtu wire p1 : Int) (cfgMid cfgEnd : Option Int
     regenBudgets "packetDataSegLen" mtu wire p1 cfgMid cfgEnd =
       [some (maxPadTP (maxPaddingSize mtu packetTransport wire 0) cfgMid),
        some (maxPadTP (maxPaddingSize mtu packetTransport wire p1) cfgEnd)] := by
-  simp [regenBudgets, Gen.Wire.paddingBudgetCalls, budgetOfCall, argLen]
+  simp [regenBudgets, Gen.UdpWire.paddingBudgetCalls, budgetOfCall, argLen]
 
 /-- the end padding of a session segment: budget from the segment's OWN payload length -/
 def sessionPadBudget (mtu n : Int) (cfgEnd : Option Int) : Int := maxPadTP (maxPaddingSize mtu packetTransport n 0) cfgEnd
 
 theorem session_budget_regenerated (mtu n p1 : Int) (cfgMid cfgEnd : Option Int) :
     regenBudgets "packetSessionSegLen" mtu n p1 cfgMid cfgEnd = [some (sessionPadBudget mtu n cfgEnd)] := by
-  simp [regenBudgets, Gen.Wire.paddingBudgetCalls, budgetOfCall, argLen, sessionPadBudget]
+  simp [regenBudgets, Gen.UdpWire.paddingBudgetCalls, budgetOfCall, argLen, sessionPadBudget]
 
 /-- the stream underlay passes the same arguments (its budget is then the constant 255 / the configured maximum) -/
 theorem padding_budget_calls_stream :
-    (Gen.Wire.paddingBudgetCalls.filter (fun c => c.1 == "streamSessionSegLen" || c.1 == "streamDataSegLen")).map (·.2) =
+    (Gen.UdpWire.paddingBudgetCalls.filter (fun c => c.1 == "streamSessionSegLen" || c.1 == "streamDataSegLen")).map (·.2) =
       [["t.mtu", "t.TransportProtocol()", "int(ss.payloadLen)", "0", "t.trafficPattern", "endPadding"],
        ["t.mtu", "t.TransportProtocol()", "int(das.payloadLen)", "0", "t.trafficPattern", "middlePadding"],
        ["t.mtu", "t.TransportProtocol()", "int(das.payloadLen)", "len(padding1)", "t.trafficPattern", "endPadding"]] := by decide
@@ -264,7 +264,7 @@ theorem padding_budget_calls_stream :
     padding section → the base budget; the position selects the configured maximum; unset → base;
     negative → 0; else the minimum. (Values: correspondence `pat-maxpad` in the C14 and C16 runs.) -/
 theorem maxPadTP_shape :
-    Gen.Wire.maxPaddingSizeWithTrafficPatternShape =
+    Gen.UdpWire.maxPaddingSizeWithTrafficPatternShape =
       ["maxPaddingSize := maxPaddingSize(mtu, transport, fragmentSize, existingPaddingSize)",
        "if trafficPattern == nil || trafficPattern.Padding == nil", "  return maxPaddingSize",
        "switch position", "case middlePadding", "  configured = trafficPattern.Padding.MaxMiddlePaddingLen",
@@ -275,12 +275,12 @@ theorem maxPadTP_shape :
 /-- one `mtu` in the theorems, two in the code (the fragment is cut with `s.mtu`, the padding budget uses
     `u.mtu`): every session is created with the MTU of the underlay it is attached to -/
 theorem session_mtu_is_underlay_mtu :
-    Gen.Wire.sessionMTUs =
+    Gen.UdpWire.sessionMTUs =
       [("Mux.DialContext", "NewSession", "underlay.MTU()"),
        ("PacketUnderlay.onOpenSessionRequest", "newSessionWithServerUserPolicy", "u.MTU()"),
        ("StreamUnderlay.onOpenSessionRequest", "newSessionWithServerUserPolicy", "t.MTU()"),
        ("NewSession", "newSessionWithServerUserPolicy", "mtu")] ∧
-    Gen.Wire.chunking =
+    Gen.UdpWire.chunking =
       ["sizeToSend := mathext.Min(len(b), maxPDU)", "if len(b) > maxPDU",
        "fragmentSize, err := maxFragmentSize(s.mtu, s.transportProtocol, lowEntropyMode)"] := by decide
 
@@ -288,18 +288,18 @@ theorem session_mtu_is_underlay_mtu :
     entropy is off and the write is at most `MaxSessionOpenPayload` bytes — so its payload never exceeds
     1024 bytes, whatever the application writes. (`n ≤ maxSessionOpenPayload` used to be a hypothesis.) -/
 theorem open_payload_bounded (sendLE len : Int) (hl : 0 ≤ len) :
-    0 ≤ Gen.Wire.openPayloadLen sendLE len ∧ Gen.Wire.openPayloadLen sendLE len ≤ maxSessionOpenPayload ∧
-    (sendLE = 1 → Gen.Wire.openPayloadLen sendLE len = 0) ∧
-    (sendLE ≠ 1 → len ≤ maxSessionOpenPayload → Gen.Wire.openPayloadLen sendLE len = len) := by
-  unfold Gen.Wire.openPayloadLen maxSessionOpenPayload
+    0 ≤ Gen.UdpWire.openPayloadLen sendLE len ∧ Gen.UdpWire.openPayloadLen sendLE len ≤ maxSessionOpenPayload ∧
+    (sendLE = 1 → Gen.UdpWire.openPayloadLen sendLE len = 0) ∧
+    (sendLE ≠ 1 → len ≤ maxSessionOpenPayload → Gen.UdpWire.openPayloadLen sendLE len = len) := by
+  unfold Gen.UdpWire.openPayloadLen maxSessionOpenPayload
   refine ⟨?_, ?_, ?_, ?_⟩ <;> (split <;> simp_all <;> omega)
 
 /-- Open request for ANY first write of `len` bytes, any low-entropy setting, any configured maximum and
     any end padding within the regenerated budget: the datagram `writeOneSegment` allocates
     (regenerated length) is at most the MTU. Retransmissions re-run the same code with a fresh padding. -/
 theorem udp_open_le_mtu (mtu sendLE len p : Int) (cfgEnd : Option Int) (hm : 1280 ≤ mtu) (hl : 0 ≤ len)
-    (hp : 0 ≤ p ∧ p ≤ sessionPadBudget mtu (Gen.Wire.openPayloadLen sendLE len) cfgEnd) :
-    Gen.Wire.packetSessionSegLen (Gen.Wire.openPayloadLen sendLE len) p ≤ mtu := by
+    (hp : 0 ≤ p ∧ p ≤ sessionPadBudget mtu (Gen.UdpWire.openPayloadLen sendLE len) cfgEnd) :
+    Gen.UdpWire.packetSessionSegLen (Gen.UdpWire.openPayloadLen sendLE len) p ≤ mtu := by
   obtain ⟨h0, h1, _, _⟩ := open_payload_bounded sendLE len hl
   rw [← datagramLen_is_regenerated_session _ _ h0]
   exact udp_session_le_mtu mtu _ p cfgEnd hm ⟨h0, h1⟩ hp
@@ -307,15 +307,15 @@ theorem udp_open_le_mtu (mtu sendLE len p : Int) (cfgEnd : Option Int) (hm : 128
 /-- Open response, close request and close response carry no payload: at most the MTU with any end padding
     within the regenerated budget. -/
 theorem udp_control_le_mtu (mtu p : Int) (cfgEnd : Option Int) (hm : 1280 ≤ mtu)
-    (hp : 0 ≤ p ∧ p ≤ sessionPadBudget mtu 0 cfgEnd) : Gen.Wire.packetSessionSegLen 0 p ≤ mtu := by
+    (hp : 0 ≤ p ∧ p ≤ sessionPadBudget mtu 0 cfgEnd) : Gen.UdpWire.packetSessionSegLen 0 p ≤ mtu := by
   rw [← datagramLen_is_regenerated_session 0 p (Int.le_refl 0)]
   exact udp_session_le_mtu mtu 0 p cfgEnd hm ⟨Int.le_refl 0, by decide⟩ hp
 
 /-! ## The fragment loop of `writeChunk`, regenerated -/
 
 theorem nFragment_is_regenerated (len f : Nat) (hf : 0 < f) :
-    (Gen.Wire.nFragment (len : Int) (f : Int)).toNat = Chunk.nFragment len f := by
-  unfold Gen.Wire.nFragment Chunk.nFragment
+    (Gen.UdpWire.nFragment (len : Int) (f : Int)).toNat = Chunk.nFragment len f := by
+  unfold Gen.UdpWire.nFragment Chunk.nFragment
   by_cases h : len > f
   · have h' : (len : Int) > (f : Int) := by omega
     have h1 : (0 : Int) ≤ (len : Int) - 1 := by omega
@@ -329,13 +329,13 @@ theorem nFragment_is_regenerated (len f : Nat) (hf : 0 < f) :
     simp [h, h']
 
 theorem cutLoop_is_regenerated (f : Nat) (tr : Int) : ∀ (i rem : Nat),
-    Gen.Wire.cutLoop (f : Int) tr i (rem : Int) = (Chunk.cutLoop f i rem).map (fun x => ((x.1 : Int), (x.2 : Int))) := by
+    Gen.UdpWire.cutLoop (f : Int) tr i (rem : Int) = (Chunk.cutLoop f i rem).map (fun x => ((x.1 : Int), (x.2 : Int))) := by
   intro i
   induction i with
-  | zero => intro rem; simp [Gen.Wire.cutLoop, Chunk.cutLoop]
+  | zero => intro rem; simp [Gen.UdpWire.cutLoop, Chunk.cutLoop]
   | succ j ih =>
     intro rem
-    simp only [Gen.Wire.cutLoop, Chunk.cutLoop, List.map_cons, Gen.Wire.partLen]
+    simp only [Gen.UdpWire.cutLoop, Chunk.cutLoop, List.map_cons, Gen.UdpWire.partLen]
     have e1 : min (f : Int) (rem : Int) = ((min f rem : Nat) : Int) := by omega
     have e2 : (rem : Int) - min (f : Int) (rem : Int) = ((rem - min f rem : Nat) : Int) := by omega
     rw [e2, ih, e1]
@@ -344,8 +344,8 @@ theorem cutLoop_is_regenerated (f : Nat) (tr : Int) : ∀ (i rem : Nat),
     length of each fragment, numbering), on either transport. A change to `nFragment`, to `partLen` or to the
     loop header breaks this proof. -/
 theorem cut_is_regenerated (len f : Nat) (tr : Int) (hf : 0 < f) :
-    Gen.Wire.cut (len : Int) (f : Int) tr = (Chunk.cut len f).map (fun x => ((x.1 : Int), (x.2 : Int))) := by
-  unfold Gen.Wire.cut Chunk.cut
+    Gen.UdpWire.cut (len : Int) (f : Int) tr = (Chunk.cut len f).map (fun x => ((x.1 : Int), (x.2 : Int))) := by
+  unfold Gen.UdpWire.cut Chunk.cut
   rw [nFragment_is_regenerated len f hf, cutLoop_is_regenerated]
 
 /-- Every datagram of every application write, low entropy off: for every MTU above the overhead, every
@@ -355,9 +355,9 @@ theorem cut_is_regenerated (len f : Nat) (tr : Int) (hf : 0 < f) :
     fragment, so the same statement covers them. -/
 theorem udp_write_le_mtu (mtu : Int) (f len : Nat) (tr p1 p2 : Int) (cfgMid cfgEnd : Option Int)
     (hf : maxFragmentSize mtu packetTransport 0 = some (f : Int)) (hf0 : 0 < f) (hl : 0 < len)
-    (x : Int × Int) (hx : x ∈ Gen.Wire.cut (len : Int) (f : Int) tr)
+    (x : Int × Int) (hx : x ∈ Gen.UdpWire.cut (len : Int) (f : Int) tr)
     (hp : PadOK mtu x.2 p1 p2 cfgMid cfgEnd) :
-    0 < x.2 ∧ x.2 ≤ (f : Int) ∧ Gen.Wire.packetDataSegLen x.2 x.2 p1 p2 0 ≤ mtu := by
+    0 < x.2 ∧ x.2 ≤ (f : Int) ∧ Gen.UdpWire.packetDataSegLen x.2 x.2 p1 p2 0 ≤ mtu := by
   rw [cut_is_regenerated len f tr hf0] at hx
   simp only [List.mem_map] at hx
   obtain ⟨y, hy, rfl⟩ := hx
@@ -373,9 +373,9 @@ theorem udp_write_le_mtu (mtu : Int) (f len : Nat) (tr p1 p2 : Int) (cfgMid cfgE
 theorem udp_write_lowentropy_le_mtu (mtu mode : Int) (f len : Nat) (tr p1 p2 : Int) (cfgMid cfgEnd : Option Int)
     (hm : 1280 ≤ mtu ∧ mtu ≤ 1500) (hmode : mode = 1 ∨ mode = 2 ∨ mode = 3 ∨ mode = 4)
     (hf : maxFragmentSize mtu packetTransport mode = some (f : Int)) (hl : 0 < len)
-    (x : Int × Int) (hx : x ∈ Gen.Wire.cut (len : Int) (f : Int) tr) :
+    (x : Int × Int) (hx : x ∈ Gen.UdpWire.cut (len : Int) (f : Int) tr) :
     ∃ w, lowEntropyEncodedPayloadLen x.2 mode = some w ∧ w ≤ 65535 ∧
-      (PadOK mtu w p1 p2 cfgMid cfgEnd → Gen.Wire.packetDataSegLen x.2 w p1 p2 1 ≤ mtu) := by
+      (PadOK mtu w p1 p2 cfgMid cfgEnd → Gen.UdpWire.packetDataSegLen x.2 w p1 p2 1 ≤ mtu) := by
   have hf0 : 0 < f := by
     obtain ⟨f', h1, h2⟩ := le_fragment_size_defined mtu mode hm hmode
     rw [hf] at h1; cases h1; omega
@@ -445,15 +445,15 @@ example : datagramLen 0 1312 0 true = 1400 := by decide
 example : datagramLen 0 1192 0 true = 1280 := by decide
 
 /-- the regenerated loop on concrete writes: 3 full fragments exactly; one byte more starts a fourth -/
-example : Gen.Wire.cut 3936 1312 2 = [(2, 1312), (1, 1312), (0, 1312)] := by decide
-example : Gen.Wire.cut 3937 1312 2 = [(3, 1312), (2, 1312), (1, 1312), (0, 1)] := by decide
+example : Gen.UdpWire.cut 3936 1312 2 = [(2, 1312), (1, 1312), (0, 1312)] := by decide
+example : Gen.UdpWire.cut 3937 1312 2 = [(3, 1312), (2, 1312), (1, 1312), (0, 1)] := by decide
 example : Chunk.cut 1 1312 = [(0, 1)] := by decide
 example : Chunk.chunks 32768 65537 65537 = [32768, 32768, 1] := by decide
-example : Gen.Wire.openPayloadLen 0 1024 = 1024 ∧ Gen.Wire.openPayloadLen 0 1025 = 0 ∧ Gen.Wire.openPayloadLen 1 10 = 0 := by decide
+example : Gen.UdpWire.openPayloadLen 0 1024 = 1024 ∧ Gen.UdpWire.openPayloadLen 0 1025 = 0 ∧ Gen.UdpWire.openPayloadLen 1 10 = 0 := by decide
 /-- the open request with the largest piggy-backed write at the smallest MTU: 1112 bytes leave 168 for padding -/
-example : Gen.Wire.packetSessionSegLen 1024 168 = 1280 ∧ sessionPadBudget 1280 1024 none = 168 ∧
+example : Gen.UdpWire.packetSessionSegLen 1024 168 = 1280 ∧ sessionPadBudget 1280 1024 none = 168 ∧
     sessionPadBudget 1280 0 none = 255 := by decide
-example : Gen.Wire.packetDataSegLen 1192 1192 0 0 0 = 1280 := by decide
+example : Gen.UdpWire.packetDataSegLen 1192 1192 0 0 0 = 1280 := by decide
 
 end Mieru.C14
 
